@@ -1,4 +1,5 @@
 import MirProofs.Lemmas.Entropy
+import MirProofs.Lemmas.EmiSupport
 import MirProofs.Props.C01_Beat
 /-!
   C01 (entropy-based scores) — the ranges of the scores that are built from Shannon entropies, for ALL inputs,
@@ -12,6 +13,7 @@ import MirProofs.Props.C01_Beat
   * NMI ∈ [0, 1]                                          (`nmi_range`)
   * NCE over / under / F ∈ [0, 1], both normalisations    (`nce_range`), V-measure (`vmeasure_range`)
   * AMI ≤ 1, EMI = hypergeometric expectation ≤ H          (`ami_le_one`, `emi_hypergeometric`, `emi_le_entropy`)
+  * the loop's range is the whole support: weights sum to 1 (`hyp_weights_sum_one`, `emi_hypergeometric_full_support`)
   * textbook forms of `_entropy` and of the NCE / V body  (`entropy_textbook`, `nce_textbook`)
 -/
 namespace Mir.C01.Entropy
@@ -186,6 +188,36 @@ theorem emi_hypergeometric (a b : List Nat) (n : Nat) (ha : ∀ x ∈ a, x ≤ n
     Segment.expectedMI (α := ℝ) a b n =
       (a.map fun ai => (b.map fun bj => ((loopRange n ai bj).map fun k => emiTerm n ai bj k).sum).sum).sum :=
   expectedMI_real ha hb
+
+/-- **The hypergeometric weights sum to 1 (Vandermonde).** For row sum `a`, column sum `b`, total `n` (`a, b ≤ n`)
+    the weights `hyp n a b k = C(a,k) C(n−a, b−k) / C(n,b)` over the loop's own range of `k`
+    (`loopRange`: `max(1, a+b−n) … min(a,b)`) plus the `k = 0` weight sum to 1, every weight being ≥ 0: the loop
+    covers the whole support except `k = 0`. -/
+theorem hyp_weights_sum_one (n a b : Nat) (ha : a ≤ n) (hb : b ≤ n) :
+    (∀ k, 0 ≤ hyp n a b k) ∧ hyp n a b 0 + ((loopRange n a b).map fun k => hyp n a b k).sum = 1 :=
+  ⟨hyp_nonneg n a b, hyp_zero_add_sum_loop ha hb⟩
+
+/-- **EMI is exactly the expectation of the MI summand under the hypergeometric law:** the loop's range may be
+    replaced by the whole support `k = 0 … min(a_i, b_j)` (`Mir.Hypergeom.hypExpect`, total mass 1 by
+    `Mir.Hypergeom.hypExpect_const`), because the summand `(k/n)(log(n k) − log(a_i b_j))` vanishes at `k = 0` and
+    the weight vanishes for `k < a_i + b_j − n`. -/
+theorem emi_hypergeometric_full_support (a b : List Nat) (n : Nat) (ha : ∀ x ∈ a, x ≤ n) (hb : ∀ y ∈ b, y ≤ n) :
+    Segment.expectedMI (α := ℝ) a b n =
+      (a.map fun ai => (b.map fun bj =>
+        Mir.Hypergeom.hypExpect n ai bj (fun k =>
+          ((k : ℝ) / (n : ℝ)) * (Real.log ((n : ℝ) * (k : ℝ)) - Real.log ((ai : ℝ) * (bj : ℝ))))).sum).sum := by
+  rw [expectedMI_real ha hb]
+  congr 1
+  apply List.map_congr_left
+  intro ai hai
+  congr 1
+  apply List.map_congr_left
+  intro bj _
+  rw [sum_loop_emiTerm (ha ai hai)]
+  rfl
+
+example : hyp 4 2 3 0 = 0 ∧ loopRange 4 2 3 = [1, 2] ∧ hyp 4 2 3 1 + hyp 4 2 3 2 = 1 := by
+  refine ⟨by norm_num [hyp, Nat.choose], by decide, by norm_num [hyp, Nat.choose]⟩
 
 /-- **EMI ≤ H(rows)** for positive marginals `a`, `b` of a table with total `n` (log-monotonicity termwise, then the
     hypergeometric mean `Σ_k k·Hyp(k) ≤ a b / n` from Vandermonde's identity). -/
